@@ -21,6 +21,9 @@ import time
 VERIF = os.path.dirname(os.path.dirname(os.path.abspath(__file__)))
 REPO = os.environ.get("VERIF_REPO", "/repo")
 COMMON = os.path.join(VERIF, "contracts", "common")
+# where evidence/ and replays/ are written (the seed runner redirects them so that runs against a
+# patched scratch copy of the repository never overwrite the evidence of the real tree)
+OUT = os.environ.get("VERIF_OUT", VERIF)
 
 GLOBAL_TRUSTED = [
     "CBMC 6.11.0 (goto-cc C++ front end, goto-instrument DFCC, symbolic execution, MiniSat/CaDiCaL back end) is sound; machine integers are bit-vectors",
@@ -150,6 +153,7 @@ def run_group(g, scratch, tree):
         res["wall_s"] = time.time() - t0
         return res
     final = d_gb
+    g_unw = g.unwind
     if g.loops:
         lc_src = os.path.join(VERIF, "contracts", g.loops)
         lc = os.path.join(wd, "loops.json")
@@ -172,7 +176,7 @@ def run_group(g, scratch, tree):
                     bad.append("%s:%s -> %r" % (fn, var, c))
                     return "UNRESOLVED"
                 return c[0]
-            text = re.sub(r"@L:([^:@]+):([^:@]+)@", resolve, text)
+            text = re.sub(r"@L:((?:[^:@]|::)+):([^:@]+)@", resolve, text)
             if bad:
                 res["status"] = "undecided"
                 res["reason"] = "loop-contract local not found (function renamed or restructured): " + "; ".join(bad)
@@ -185,15 +189,23 @@ def run_group(g, scratch, tree):
         res["cmds"].append(" ".join(cmd))
         rc, so, se, _ = sh(cmd, timeout=900, mem_gb=g.mem_gb)
         if rc != 0:
-            res["status"] = "undecided"
-            res["reason"] = "goto-instrument --dfcc failed: " + (se + so)[-800:]
-            res["wall_s"] = time.time() - t0
-            return res
-        final = i_gb
+            # The loop contracts no longer fit the code (a loop disappeared or was restructured).  Fall back to
+            # complete unwinding of the harness without loop contracts: a failed obligation there is a
+            # violation (the postconditions do not depend on the loop contract); a pass is reported as
+            # undecided because the contract must be rewritten before the proof can be claimed again.
+            res["dfcc_fallback"] = (se + so)[-300:]
+            final = d_gb
+            if not g.unwind or g.unwind < 12:
+                g_unw = 12
+            else:
+                g_unw = g.unwind
+        else:
+            final = i_gb
+            g_unw = g.unwind
     cb = ["cbmc", final, "--no-standard-checks"] + g.checks + ["--unwinding-assertions",
           "--max-field-sensitivity-array-size", "1024", "--object-bits", "12", "--json-ui"]
-    if g.unwind:
-        cb += ["--unwind", str(g.unwind)]
+    if g_unw:
+        cb += ["--unwind", str(g_unw)]
     if g.unwindset:
         cb += ["--unwindset", ",".join(g.unwindset)]
     cb += g.extra_cbmc
@@ -262,7 +274,14 @@ def run_group(g, scratch, tree):
             if tr:
                 entry["trace"] = tr
         res["props"].append(entry)
-    if g.loops and (seen_base < g.expected_loops or seen_step < g.expected_loops or seen_base == 0):
+    if res.get("dfcc_fallback"):
+        real = [p for p in res["props"] if p["status"] == "FAILURE" and not p["desc"].startswith("canary") and ".unwind" not in p["id"]]
+        if not real:
+            res["status"] = "undecided"
+            res["reason"] = "loop contracts could not be applied (loop structure changed) and the bounded fallback found no failing obligation: " + res["dfcc_fallback"].replace("\n", " ")[:200]
+        else:
+            res["props"] = [p for p in res["props"] if ".unwind" not in p["id"]]
+    elif g.loops and (seen_base < g.expected_loops or seen_step < g.expected_loops or seen_base == 0):
         res["status"] = "undecided"
         res["reason"] = "loop contract silently dropped: %d base / %d step obligations, expected >= %d" % (seen_base, seen_step, max(1, g.expected_loops))
     res["wall_s"] = time.time() - t0
@@ -331,7 +350,7 @@ def run_check(prop_id, groups, tier, level, trusted=(), assumptions=(), explanat
     seed = int(os.environ.get("VERIF_SEED", "0") or 0)
     scratch = os.environ.get("VERIF_SCRATCH") or "/var/tmp/verif.%s.%d" % (prop_id, os.getpid())
     os.makedirs(scratch, exist_ok=True)
-    shutil.rmtree(os.path.join(VERIF, "replays", prop_id), ignore_errors=True)
+    shutil.rmtree(os.path.join(OUT, "replays", prop_id), ignore_errors=True)
     sel = [g for g in groups if tier == "thorough" or g.tier == "quick"]
     only = os.environ.get("VERIF_ONLY")
     if only:
@@ -458,7 +477,7 @@ def finish(prop_id, sel, results, tier, seed, level, trusted, assumptions, expla
     for k in known_hit:
         lines.append("KNOWN-FINDING: property=%s %s [%s]" % (prop_id, k["what"], k["obligation"]))
     vcount = 0
-    rdir = os.path.join(VERIF, "replays", prop_id)
+    rdir = os.path.join(OUT, "replays", prop_id)
     seen_keys = set()
     for v in violations:
         if v["key"] in seen_keys:
@@ -520,8 +539,8 @@ def finish(prop_id, sel, results, tier, seed, level, trusted, assumptions, expla
         cov.update(extra_coverage)
     ev = {"property_id": prop_id, "tier": tier, "seed": seed, "level": level, "coverage": cov,
           "assumptions": list(assumptions), "wall_s": round(wall, 1), "violations": vcount}
-    os.makedirs(os.path.join(VERIF, "evidence"), exist_ok=True)
-    with open(os.path.join(VERIF, "evidence", prop_id + ".json"), "w") as fh:
+    os.makedirs(os.path.join(OUT, "evidence"), exist_ok=True)
+    with open(os.path.join(OUT, "evidence", prop_id + ".json"), "w") as fh:
         json.dump(ev, fh, indent=1)
     print("SUMMARY property=%s tier=%s groups=%d obligations=%d discharged=%d bounded_groups=%d known=%d violations=%d undecided=%d wall=%.0fs"
           % (prop_id, tier, len(results), obligations, discharged, len(bounded_checks), len(known_hit), vcount, len(undecided), wall))
